@@ -2206,6 +2206,18 @@ func genTrans(repo, outDir string) error {
 		sb.WriteString(d.text + "\n\n")
 		facts["TransC04.Interface_RouterAdvertisement"] = d.text
 	}
+	// the error classification of (*Dialer).init (translate_switch.go)
+	curTag = "TransC10"
+	if p, err := loadPkg(repo, "internal/system"); err != nil {
+		failf("translate: Dialer.init: %v", err)
+	} else if d, err := translateInitSwitch(p); err != nil {
+		failf("%s", err)
+		sb.WriteString("-- NOT TRANSLATED: " + docSafe(err.Error()) + "\n\n")
+		facts["TransC10.Dialer_init_switch"] = "NOT TRANSLATED: " + err.Error()
+	} else {
+		sb.WriteString(d.text + "\n\n")
+		facts["TransC10.Dialer_init_switch"] = d.text
+	}
 	sb.WriteString("end Corerad.Gen.Trans\n")
 	p := filepath.Join(outDir, "Trans.lean")
 	if old, err := os.ReadFile(p); err == nil && string(old) == sb.String() {
